@@ -33,6 +33,7 @@ type schedRecord struct {
 	T1    []int           `json:"t1"`
 	Res   []interface{}   `json:"res"`
 	Ab    []bool          `json:"ab"`
+	Risky bool            `json:"risky"` // drawn from the pre-repair model: its prediction is not the code's
 	Fin   struct {
 		Idx  bool    `json:"idx"`
 		Size int     `json:"size"`
@@ -357,6 +358,14 @@ func runSched(rec *schedRecord, seed int64) ([][]byte, map[string]int) {
 		do(0, e)
 	}
 	audit := x.Audit(b)
+	if rec.Risky {
+		stats["sched/risky-replayed"]++
+		lines, st := concLines(evs, audit, seed, be, G)
+		for k, v := range st {
+			stats[k] += v
+		}
+		return lines, stats
+	}
 	// advisory: the model's prediction
 	agree := true
 	for gi := 0; gi < G; gi++ {
